@@ -17,11 +17,10 @@ def run(name, gen, cmd, trace, tier, seed, ctxs=CTXS, maxnodes=None, extra_cfg=N
     def genf(ctx):
         mname = "%s_%s" % (gen, ctx)
         mn = (maxnodes or {}).get(ctx) or u["MaxNodes"][ctx]
-        base = pipe_sat.gen_cfg_sat(u, ctx, mn, pipe_sat.COMP_STRIDE[tier]["other"], seed) if gen == "Gen_Sat" else pipe_sat.gen_cfg(u, ctx, maxnodes=mn)
+        base = pipe_sat.gen_cfg_sat(u, ctx, mn, pipe_sat.COMP_STRIDE[tier]["other"], seed, nc=pipe_sat.NC_KEEP[tier]["other"]) if gen == "Gen_Sat" else pipe_sat.gen_cfg(u, ctx, maxnodes=mn, seed=seed)
         cfg = base + list((extra_cfg or {}).get(ctx, (extra_cfg or {}).get("*", [])))
-        write_module(wd, mname, gen, pipe_sat.gen_defs(u) + list(extra_defs or []), cfg)
         out = os.path.join(wd, "cases_%s.ndjson" % ctx)
-        r = tlc(wd, mname, mname + ".cfg", env={"OUT": out}, workers=1, heap=gen_heap, timeout=3000)
+        r = gen_cached(wd, mname, gen, pipe_sat.gen_defs(u) + list(extra_defs or []), cfg, out, heap=gen_heap)
         g = r.tagged("GEN")
         if not g or not os.path.exists(out):
             log(r.out[-3000:])
@@ -78,9 +77,8 @@ def run_single(name, gen, gen_cfg_lines, cmd, trace, tier, seed, count_event=Non
     build_harness()
     t0 = time.time()
     mname = gen + "_run"
-    write_module(wd, mname, gen, list(gen_defs), list(gen_cfg_lines))
     cases = os.path.join(wd, "cases.ndjson")
-    r = tlc(wd, mname, mname + ".cfg", env={"OUT": cases}, workers=1, heap="8g", timeout=3000)
+    r = gen_cached(wd, mname, gen, list(gen_defs), list(gen_cfg_lines), cases)
     g = r.tagged("GEN")
     if not g or not os.path.exists(cases):
         log(r.out[-3000:])
